@@ -84,6 +84,7 @@ type vOp struct {
 	known  string // known-finding class of this operation on the pinned tree ("" = expected to hold)
 	noNode bool   // operation uses the root `node` field (absent under the node-hiding merger)
 	known13 string // recorded C13 finding about the data of this operation ("" = none)
+	sparse  bool   // by construction nothing reaches the dependent steps (lists of nulls): no coverage obligations
 	opName string
 }
 
@@ -132,7 +133,7 @@ func vReadmeOps() []vOp {
 		{q: `{ maybe { name } }`},
 		{q: `{ maybe { name phone } }`},
 		{q: `{ nobody { name } me { name } }`},
-		{q: `{ nobody { phone } }`},
+		{q: `{ nobody { phone } }`, sparse: true},
 		// a field name that occurs further down in an earlier sibling (the executor looks selections up by name)
 		{q: `{ me { best { friends { name } } friends { best { phone } } } }`},
 		{q: `{ getAnimals { owner { pets { name } } name } getHumans { pets { owner { email } } } }`},
